@@ -174,6 +174,8 @@ def make_data(rng: random.Random, hostile: float = 0.1, drop: float = 0.1) -> di
             del d[k]
         elif r < drop + hostile:
             d[k] = V.random_value(rng, 0, hostile=0.7)
+    d["r1"] = rng.choice([0, 1, 2, 3, 5, -1])
+    d["r2"] = rng.choice([0, 1, 2, 4, 7])
     return d
 
 
@@ -354,8 +356,10 @@ class Gen:
         return self.range_()
 
     def range_(self) -> str:
-        a = self.ch(["1", "0", "n", "-1", "2", "m"])
-        b = self.ch(["3", "5", "n", "m", "2", "0", "xs.size"])
+        # r1 / r2 are always small ints in make_data: a hostile bound (2**63, 10**5000) makes a loop that never ends in practice,
+        # which is a workload hazard (watchdog -> inconclusive), not a verdict; hostile range bounds are C02's dedicated sweep
+        a = self.ch(["1", "0", "r1", "-1", "2", "r2"])
+        b = self.ch(["3", "5", "r1", "r2", "2", "0", "xs.size"])
         for x in (a, b):
             if x[0].isalpha():
                 self.meta.roots.add(x.split(".")[0])
